@@ -1,4 +1,5 @@
 SPECIFICATION Spec
-CONSTANT Thorough = TRUE
+CONSTANT Thorough = FALSE
 CHECK_DEADLOCK FALSE
 INVARIANT Sanity
+INVARIANT Emit
